@@ -798,6 +798,26 @@ func (x *Xlat) hasContract(fi *FuncInfo) bool {
 	return n > 0 || s.HasMod || s.Trusted != "" || s.Pure || s.NoPanic
 }
 
+// preOnly: in the current view the contract has preconditions and nothing else.
+func (x *Xlat) preOnly(fi *FuncInfo) bool {
+	s := fi.Spec
+	if s == nil || s.HasMod || s.Trusted != "" || s.Pure || s.NoPanic || s.Decr != nil || len(s.Loops) > 0 || len(s.Asserts) > 0 {
+		return false
+	}
+	nr := 0
+	for _, c := range s.Requires {
+		if c.inView(x.view) {
+			nr++
+		}
+	}
+	for _, c := range s.Ensures {
+		if c.inView(x.view) {
+			return false
+		}
+	}
+	return nr > 0
+}
+
 func (x *Xlat) nnArgs(st *State, out *Outcomes, fi *FuncInfo, args []Arg, pos token.Pos) {
 	if !x.nn {
 		return
@@ -813,6 +833,23 @@ func (x *Xlat) nnArgs(st *State, out *Outcomes, fi *FuncInfo, args []Arg, pos to
 func (x *Xlat) callModule(st *State, fr *Frame, out *Outcomes, fi *FuncInfo, args []Arg, pos token.Pos) []*Term {
 	if x.hasContract(fi) {
 		x.nnArgs(st, out, fi, args, pos)
+		if x.preOnly(fi) && !x.inCallChain(fr, fi) && fr.depth < maxInlineDepth && x.lock == nil {
+			// a contract that (in this view) consists of preconditions only: they are asserted at the call, and the body is
+			// then inlined like that of any helper without a contract - more precise than havocking what it writes
+			snap := st.clone()
+			nobl := len(x.obls)
+			savedPan := out.pan
+			x.stopAfterPre = true
+			x.callContract(st, fr, out, fi, args, pos)
+			x.stopAfterPre = false
+			if rs, ok := x.tryInline(st, fr, out, fi, args, pos); ok {
+				x.inlined[fi.Key] = true
+				return rs
+			}
+			*st = *snap
+			x.obls = x.obls[:nobl]
+			out.pan = savedPan
+		}
 		return x.callContract(st, fr, out, fi, args, pos)
 	}
 	if !x.inCallChain(fr, fi) && fr.depth < maxInlineDepth {
@@ -1125,6 +1162,9 @@ func (x *Xlat) callContract(st *State, fr *Frame, out *Outcomes, fi *FuncInfo, a
 		name := fmt.Sprintf("%s/call.pre.%s.%d#%d", x.curFunc, fi.Key, i+1, x.bump("call."+fi.Key+fmt.Sprint(i)))
 		x.emit(st, name, "call.pre", g, pos, "precondition of "+fi.Key+": "+r.Text)
 		st.assume(g)
+	}
+	if x.stopAfterPre {
+		return nil
 	}
 	// recursion: the callee's measure must be smaller than ours and bounded below
 	if fi == x.fi && spec.Decr != nil && x.entryMeasure != nil {
